@@ -361,20 +361,21 @@ def report(b, prop, P, tier, seed, first, results, t0, args):
         lines.append("VIOLATION property=%s replay=%s" % (prop, rpath))
         log("  class=%s seed=%s: %s" % (cls, r0["seed"], vd["detail"][:500]))
         vio_info.append({"class": cls, "seed": r0["seed"], "replay": rpath, "count": len(rs)})
-        if exit_code == 0:
-            exit_code = 1
+        exit_code = 1  # a replay-verified violation outranks harness trouble in the same batch
     for k in known:
         if k.get("status") == "open" and k.get("property") == prop:
             # a listed finding is reported on every run of the check
             print("KNOWN-FINDING: property=%s %s [%s; hit by %d runs of this batch]" % (prop, k.get("what", k.get("id")), k["id"], known_hits.get(k["id"], 0)))
     # required reach probes
+    if exit_code == 1 and harness_errors:
+        log("note: %d runs of this batch also ended in harness errors (not verdicts)" % len(harness_errors))
     for name in P.get("required_probes", []):
         if probes.get(name, 0) == 0 and exit_code == 0:
             log("REACH-PROBE-ZERO: %s never fired in this batch (exit 2; the check cannot vouch for the property)" % name)
             exit_code = 2
     # determinism self-test
     st = None
-    if exit_code != 2 and not args.no_selftest:
+    if exit_code == 0 and not args.no_selftest:
         n = P[tier].get("selftest", 40)
         st = selftest(b.worker, prop, tier, [(first, n)])
         if st["n_mismatch"] or st["rogue"]:
